@@ -22,8 +22,9 @@ def retained(g, pre, roots):
         for x in g_closure(g, d, pre):
             if x not in R:
                 R.add(x)
-                for a in pre["refs"].get(x, []):
-                    work.append(a)
+                if pre["blob"].get(x) == 200:       # a subject whose own bytes are gone is not retained: its referrers follow the dangling policy
+                    for a in pre["refs"].get(x, []):
+                        work.append(a)
     return R
 
 
@@ -43,6 +44,7 @@ def g_closure(g, d, pre, seen=None):
 
 def oracle(ctx, case, io):
     obs = gcgen.observe(case, io)
+    rstate = gcgen.replay_state(case, io)
     g = case["graph"]
     for k, (st, res) in enumerate(zip(case["steps"], io["steps"])):
         if st["kind"] != "gc" or "gcid" not in st:
@@ -69,11 +71,11 @@ def oracle(ctx, case, io):
             """d was listed as a child by an index, which moved its index.json entry to the in-memory child list, and no
             such index survives: d is no retention root of its own (finding F35)"""
             parents = [x for x, m in gg["man"].items() if m["kind"] == "index" and d in m["refs"]]
-            return bool(parents) and not any(post["man"].get(x, (0,))[0] == 200 for x in parents) and d not in [v for v in st.get("tags", {}).values()]
+            return bool(parents) and not any(post["man"].get(x, (0,))[0] == 200 for x in parents) and d not in [v for v in rstate[k][0].values()]
         nroots_tagged = len(roots)
         if (pol.get("grace_ms") or 3600000) >= 0:
             # a pushed manifest younger than the grace period is retained, with everything it references
-            roots += [d for d in st.get("young", []) if d in gg["man"] and pre["man"].get(d, (0,))[0] == 200 and not gg["man"][d].get("subject") and not orphan(d)]
+            roots += [d for d in sorted(rstate[k][1]) if d in gg["man"] and pre["man"].get(d, (0,))[0] == 200 and not gg["man"][d].get("subject") and not orphan(d)]
         if not dflt(pol.get("untagged"), False):
             roots += [d for d in pre["man"] if pre["man"][d][0] == 200 and d in gg["man"] and not gg["man"][d].get("subject") and not orphan(d)]
         R = retained(gg, pre, roots)
@@ -95,7 +97,7 @@ def oracle(ctx, case, io):
                     ctx.violation("untagged collection is off but manifest %s was removed" % d[:19], hist(digest=d), sig)
         # younger than the grace period
         if (pol.get("grace_ms") or 3600000) >= 0:
-            for d in st.get("young", []):
+            for d in sorted(rstate[k][1]):
                 if lost(d):
                     ctx.violation("collection removed blob %s which is younger than the grace period" % d[:19], hist(digest=d), "C05:young-removed")
                 elif mlost(d) and not gg["man"].get(d, {}).get("subject"):
